@@ -1761,6 +1761,33 @@ fn directed_dense_embedding(ctx: &mut Ctx) {
             "what": "a dense non-constant 384-dim `_embedding` under an `emb:` key does not come back bit-exact from snapshot_bytes + restore_from_bytes (= checkpoint + rollback): the snapshot stores the embedding-slab copy through tensor-train compression and the restore re-puts that copy over the exact one kept in the metadata value (same root cause as the C07 finding tensor_store.restore_from_bytes/metadata_not_restored)",
             "max_abs_error": max_err, "len": after.len()}));
     }
+    // (1b) a rollback whose image does not decode must leave the live store as it is
+    // (`restore_from_bytes` decodes BEFORE it clears): garbage, a truncated image, an empty one
+    {
+        let st = TensorStore::new();
+        for (k, x) in [("plain:1", 1i64), ("_cache:c1", 2), ("emb:e1", 3)] {
+            let mut t = TensorData::new();
+            t.set("x", TensorValue::Scalar(ScalarValue::Int(x)));
+            if k.starts_with("emb:") {
+                t.set("_embedding", TensorValue::Vector(vec![2.0; EMB_DIM]));
+            }
+            st.put(k, t).expect("put");
+        }
+        let good = st.snapshot_bytes().expect("snapshot_bytes");
+        let before = raw_image(&st);
+        for (what, bytes) in [("garbage", vec![0xAB_u8; 64]), ("truncated", good[..good.len() / 2].to_vec()), ("empty", vec![])] {
+            ctx.rep.hit("directed:undecodable_image");
+            let r = st.restore_from_bytes(&bytes);
+            let after = raw_image(&st);
+            if r.is_ok() || after != before {
+                ctx.violation(
+                    "tensor_store.restore_from_bytes/failed_restore_changed_store",
+                    &format!("restore_from_bytes of a {what} image answered {:?} and left [{after}] where the store held [{before}]", r.is_ok()),
+                    json!({"image": what}),
+                );
+            }
+        }
+    }
     // (2) the vector engine's own path (`vector` field, metadata slab only): must be exact
     let sys = Sys::new_with(10, false);
     let v = sys.router.vector();
@@ -1913,7 +1940,7 @@ fn main() {
         "op:rcreate", "op:rdrop", "op:rins", "op:rdel", "op:rhidx", "op:rbidx", "op:gnode", "op:gedge", "op:gdeln",
         "op:gdele", "op:vput", "op:vdel", "op:vbuild", "op:kput", "op:kdel", "op:ckpt", "op:rollback",
         "op:ckpt_named", "op:rollback_by_id", "op:ckdel", "op:cktop", "rollback:id_shadowed_by_name",
-        "rollback:by_shared_or_foreign_name", "blob_chunk:default", "blob_chunk:small_shared", "text_api:checked_after_rollback", "text_api:checked_at_checkpoint", "directed:dense_embedding", "directed:dense_vector_engine_exact", "op:text_delete", "op:text_node_delete", "op:text_embed_delete", "auto_checkpoint:created", "slab:set", "slab:del", "slab:clear", "slab:compact", "slab:reload",
+        "rollback:by_shared_or_foreign_name", "blob_chunk:default", "blob_chunk:small_shared", "text_api:checked_after_rollback", "text_api:checked_at_checkpoint", "directed:dense_embedding", "directed:undecodable_image", "directed:dense_vector_engine_exact", "op:text_delete", "op:text_node_delete", "op:text_embed_delete", "auto_checkpoint:created", "slab:set", "slab:del", "slab:clear", "slab:compact", "slab:reload",
         "res:ok", "res:id", "res:count", "res:err notfound", "res:err exists", "res:err storage",
         "retention:tie_at_boundary", "retention:incremental", "retention:bulk", "raw:restore",
         "directed:tensor_store.restore_from_bytes/relational_tables_lost",
